@@ -84,6 +84,8 @@ def table(F, syms, actions, record_returns=True, entry=0, max_nodes=200000):
                     if a.match(tm):
                         cur = cur + ((a.name, a.describe(F, tm, du) if a.describe else ""),)
                         break
+                if record_returns and t["dst"]["local"] == 0 and not t["dst"]["proj"]:
+                    cur = tuple(a for a in cur if a[0] != "ret") + (("ret", "call " + _short_callee(tm)),)
             if t["k"] == "return":
                 results.add(cur)
                 continue
@@ -110,6 +112,12 @@ def table(F, syms, actions, record_returns=True, entry=0, max_nodes=200000):
                 stack.append((x, cur))
         out[labels] = frozenset(results)
     return out
+
+
+def _short_callee(tm):
+    from .facts import short_path
+    c = tm.callee or tm.j.get("callee_ty", "?")
+    return short_path(c)
 
 
 def _ret_desc(F, s, du):
